@@ -240,7 +240,7 @@ PROPS = {
         level="model_checking",
         level_text="partial claim, bounded exploration through the symbolic executor: (a) every EBNF syntax tree of a bounded template (Negation symbolic, any modifier, name/literal/token/group, any lookahead marker, sequences and alternatives) is printed by the real String methods and parsed back by the real ebnf parser; the trees must be equal (so no operator is lost or altered); (b) for grammars using every operator, a union and anonymous struct types, the real Parser.String() must not panic, must be accepted by the ebnf package, put the root production first, define every referenced production exactly once, contain every operator of the grammar, and survive a second round trip",
         level_note="trusted: text/scanner executed from SSA on the (concrete) printed text; the template's shape selectors are finite (enumeration through the executor; the solver decides the symbolic Negation flag); whole-grammar half is a fixed catalogue of 3 grammars",
-        runs=[dict(pkg="ebnf", files=["ebnf/zz_verif_ebnf.go", "root/zz_verif_ggcore.go"], harness="^VH_C14_", max_steps=60_000_000, reach={"VH_C14_TreeRoundTrip": ["round-trip"], "VH_C14_Literals": ["round-trip"], "VH_C14_Grammar_All": ["grammar"], "VH_C14_Grammar_Anonymous": ["grammar"], "VH_C14_Generated": ["grammar"], "VH_C14_Grammar_WholeBody": ["grammar"], "VH_C14_Grammar_Negations": ["grammar"], "VH_C14_Grammar_AnonTwins": ["grammar"], "VH_C14_Grammar_LookaheadOnly": ["grammar"], "VH_C14_Grammar_CapParens": ["grammar"]})],
+        runs=[dict(pkg="ebnf", files=["ebnf/zz_verif_ebnf.go", "root/zz_verif_ggcore.go"], harness="^VH_C14_", max_steps=60_000_000, reach={"VH_C14_TreeRoundTrip": ["round-trip"], "VH_C14_Literals": ["round-trip"], "VH_C14_Grammar_All": ["grammar"], "VH_C14_Grammar_Anonymous": ["grammar"], "VH_C14_Generated": ["grammar"], "VH_C14_Grammar_WholeBody": ["grammar"], "VH_C14_Grammar_Negations": ["grammar"], "VH_C14_Grammar_AnonTwins": ["grammar"], "VH_C14_Grammar_LookaheadOnly": ["grammar"], "VH_C14_Grammar_CapParens": ["grammar"], "VH_C14_Grammar_NonASCIITypes": ["grammar"]})],
         bounds=dict(quick="trees: first term a leaf or a group (any lookahead marker) around a term, second element (sequence or alternative) a simple leaf; 12 090 trees; grammars: all-operators grammar (incl. literals that need escaping), union grammar, anonymous struct grammar, 48 generated grammars (union root, anonymous struct types, every operator, escaped literals), whole-body / negation / lookahead-only / capture-in-parentheses grammars; literal terms: 9 escape-needing texts in sequences and alternatives",
                     thorough="group nesting depth 2; 400 generated grammars"),
         outside="grammars outside the three catalogue grammars; literal texts needing escapes beyond quote and backslash; cmd/railroad",
